@@ -24,6 +24,8 @@ func c18(c *Ctx) {
 	errflow.E1(c.P, r)
 	errflow.E2E3(c.P, r, sets, errflow.E2Options{Exceptions: e2Exceptions})
 	errflow.E4(c.P, r, "ErrNoMorePackets", sets)
+	errflow.E4b(c.P, r)
+	errflow.E2c(c.P, r, sets)
 	errflow.E5(c.P, r, apiCountFuncs)
 	errflow.E5b(c.P, r, apiCountFuncs)
 	r.Floor("E2", "io-tainted error call sites", r.Counters["io_error_call_sites"], 40)
